@@ -46,6 +46,32 @@ def it_mux(c):
     return {'outs': {'r': r}, 'widths': {'r': w}, 'oracle': orc}
 
 
+def it_mux_kw(c):
+    """the predicate forms: select(s, t, f) and the (deprecated but accepted) keyword form mux(s, truecase=t, falsecase=f)"""
+    import warnings
+    wt, wf = c['wt'], c['wf']
+    s, t, f = I(1, 's'), I(wt, 't'), I(wf, 'f')
+    with warnings.catch_warnings():
+        warnings.simplefilter('ignore')
+        form = c['form']
+        if form == 'mux_kw':
+            r = pyrtl.mux(s, truecase=t, falsecase=f)
+        elif form == 'mux_kw_reversed':
+            r = pyrtl.mux(s, falsecase=f, truecase=t)
+        elif form == 'select_pos':
+            r = pyrtl.select(s, t, f)
+        elif form == 'select_kw':
+            r = pyrtl.select(s, truecase=t, falsecase=f)
+        elif form == 'select_kw_reversed':
+            r = pyrtl.select(sel=s, falsecase=f, truecase=t)
+        else:   # mux positional: index 0 first
+            r = pyrtl.mux(s, f, t)
+
+    def orc(ins):
+        return {'r': ite(ins['s'] == 1, ins['t'], ins['f'])}
+    return {'outs': {'r': r}, 'widths': {'r': max(wt, wf)}, 'oracle': orc}
+
+
 class _E3(enum.IntEnum):
     A = 1
     B = 2
@@ -444,7 +470,7 @@ def it_struct(c):
 
 from .c06 import it_barrel  # noqa: E402  (barrel_shifter is named by both properties)
 
-ITEMS = {'barrel': it_barrel, 'mux': it_mux, 'enum_mux': it_enum_mux, 'sparse': it_sparse, 'prio': it_prio, 'multisel': it_multisel,
+ITEMS = {'barrel': it_barrel, 'mux': it_mux, 'mux_kw': it_mux_kw, 'enum_mux': it_enum_mux, 'sparse': it_sparse, 'prio': it_prio, 'multisel': it_multisel,
          'demux': it_demux, 'bitfield': it_bitfield, 'bitfield_set': it_bitfield_set, 'bitfield_trunc': it_bitfield_trunc, 'bitfield_int': it_bitfield_int,
          'pattern': it_pattern, 'chop': it_chop, 'partition': it_partition, 'struct': it_struct}
 
@@ -462,6 +488,9 @@ def cases(tier, seed):
             for d in (False, True):
                 for w in (1, 3):
                     out.append({'item': 'mux', 'sw': sw, 'n': n, 'w': w, 'default': d})
+    for form in ('mux_kw', 'mux_kw_reversed', 'select_pos', 'select_kw', 'select_kw_reversed', 'mux_pos'):
+        for wt, wf in ((1, 1), (3, 3), (2, 4), (4, 2)):
+            out.append({'item': 'mux_kw', 'form': form, 'wt': wt, 'wf': wf})
     for en, sw in (('E3', 3), ('E4', 2), ('E4', 3)):
         nmem = 3 if en == 'E3' else 4
         for listed in range(1, nmem + 1):
